@@ -580,6 +580,8 @@ impl Interp {
                 self.note_result(info, &r);
                 if surf == Surf::Io {
                     // dropped wrapper: result not observable; state follows the model
+                    info.ok = !in_use;
+                    info.refused = in_use;
                     if !in_use {
                         self.vols.remove(i);
                         self.closed_vols.push(h);
